@@ -255,3 +255,12 @@ for _pid in ("C02", "C04", "C05", "C06", "C07", "C09", "C10", "C11"):
     _te = "tools/inventory_kernels*.py (translator; see DESIGN §0.6): Rust reading table, BlockBuffer methods as named primitives mapped to CC.Buffer, extern compressor functions, struct invariants assumed in the glue obligations"
     if _te not in PROPS[_pid].get("trusted_extra", []):
         PROPS[_pid]["trusted_extra"] = list(PROPS[_pid].get("trusted_extra", [])) + [_te]
+
+
+# ---- translator tie for the portable ppv-lite86 code (generic.rs, soft.rs; tools/inventory_simdport.py)
+for _pid in ("C12", "C13"):
+    if "source_portable_match" not in PROPS[_pid]["theorems"]:
+        PROPS[_pid]["theorems"] = list(PROPS[_pid]["theorems"]) + ["source_portable_match"]
+    _te = "tools/inventory_simdport.py (translator of generic.rs / soft.rs; its Rust reading table is printed in lean/CC/Gen/SimdPortSrc.lean)"
+    if _te not in PROPS[_pid].get("trusted_extra", []):
+        PROPS[_pid]["trusted_extra"] = list(PROPS[_pid].get("trusted_extra", [])) + [_te]
